@@ -171,6 +171,7 @@ def gen_history(rng, tier, focus):
     if focus == "c09":
         L.append("CUTS %d" % (600 if tier == "quick" else 3000))
         L.append("FLIPSUM")
+        L.append("FCSLIE")
         L.append("TRAIL %d %d" % (rng.choice([1, 3, 4, 8, 100]), rng.randint(0, 200)))
     elif rng.random() < 0.15:
         L.append("CUTS 300")
@@ -270,7 +271,7 @@ def validate_and_report(ck, exe, name, scenarios, per_batch=40):
             for e in evs:
                 if e["e"] in ("ccall", "dcall"):
                     ck.case(key=(e["e"], e.get("dir"), min(e["inAvail"], 9), min(e["outAvail"], 9), min(e["inDelta"], 9), min(e["outDelta"], 9), e["ret"] == 0, e["ret"] < 0))
-                elif e["e"] in ("cut", "flipsum", "prefix", "dhint", "oneshot", "trail"):
+                elif e["e"] in ("cut", "flipsum", "fcslie", "prefix", "dhint", "oneshot", "trail"):
                     ck.case(key=(e["e"], e.get("k", 0) % 97, e.get("bit"), e.get("why")))
             if ok:
                 ck.traces(len(batch))
